@@ -157,6 +157,7 @@ class Target:
         self.loglik = ll
         lik = cuqi.likelihood.UserDefinedLikelihood(dim=d, logpdf_func=self.rec.wrap(ll), name="y")
         self.obj = cuqi.distribution.Posterior(lik, prior)
+        self.pair = (lik, prior)
         self.logpi = lambda x: ll(np.asarray(x, float)) + refs.gauss_logpdf(x, mean, C)
 
 
@@ -188,6 +189,9 @@ def cells(tier, seed):
                     scales.append("covprop")
                 for sc in scales:
                     yield {"iface": iface, "kernel": kernel, "target": t, "scale": sc, "cat": k, "tier": tier}
+                    if kernel == "PCN" and iface == "legacy" and (sc == "s0.6" or tier == "thorough"):
+                        # documented second target form of the stateless pCN: the tuple (likelihood, prior)
+                        yield {"iface": iface, "kernel": kernel, "target": t, "scale": sc, "cat": k, "tier": tier, "form": "tuple"}
 
 
 # ----------------------------------------------------------------------------------------
@@ -225,7 +229,8 @@ class Adapter:
             s = self.cls(self.tgt.obj, scale=copy.deepcopy(self.scale), initial_point=x, **kw)
             s.initialize()
         else:
-            s = self.cls(self.tgt.obj, scale=copy.deepcopy(self.scale), x0=x, **kw)
+            target = self.tgt.pair if self.cell.get("form") == "tuple" else self.tgt.obj
+            s = self.cls(target, scale=copy.deepcopy(self.scale), x0=x, **kw)
         return s
 
     # --- one transition under the stream -----------------------------------------------
@@ -305,7 +310,12 @@ def states_for(tgt, tier, k):
             3: [[-1.0, 0.5, 0.25], [0.25, -0.75, 0.5], [0.5, 1.0, -0.5]]}[d]
     if tier == "thorough" and d < 3:
         base = base + [[0.875] * d]
-    return [np.array(b) + 0.0625 * k for b in base]
+    out = [np.array(b) + 0.0625 * k for b in base]
+    if tgt.family == "neginf" or tgt.name.startswith("inflik"):
+        # current states OUTSIDE the support (log-density -inf, e.g. an initial point or a reloaded state): the ratio is
+        # +inf for every proposal inside the support, so such a proposal is accepted with probability 1
+        out += [np.array(b) + 0.0625 * k for b in {1: [[1.5], [2.25]], 2: [[1.75, 0.5], [1.5, -0.75]], 3: [[1.5, 0.25, -0.5]]}[d]]
+    return out
 
 
 def answers_for(d, tier):
@@ -358,6 +368,8 @@ def eval_cell(cell):
     tgt = Target(cell["target"], k, cell["kernel"])
     ad = Adapter(cell, tgt)
     comp = "%s.%s" % (cell["iface"], cell["kernel"])
+    if cell.get("form"):
+        comp += "(target=%s)" % cell["form"]
     fails = {}   # (op) -> {hist kinds}; first (message, focus, detail) per (op, hist)
     nontriv = False
 
@@ -395,8 +407,11 @@ def eval_cell(cell):
         hname = hkind if hkind != "warm" else "warm"
         res.state("%s:%s" % (hkind, hpar))
         for x in X:
-            if not np.isfinite(tgt.logpi(x)):
+            lpx = tgt.logpi(x)
+            if np.isnan(lpx) or lpx == np.inf:
                 continue
+            if lpx == -np.inf and cell["kernel"] == "MALA":
+                continue       # the Langevin proposal needs the gradient at the current state: undefined outside the support
             try:
                 ident_x = identify(ad, pos, x, res)
                 if ident_x is None:
@@ -522,6 +537,12 @@ def one_transition(ad, tgt, pos, x, xi, ident_x, res, hname, fail, cell):
         if not close(o["x"], xp, 1e-9):
             fail("new-state", hname, "accepted state %s is not the proposal m(x)+T xi = %s" % (o["x"], xp), focus=focus)
     # reference acceptance probability for the identified proposal mechanism
+    if lp_x == -np.inf and (np.isnan(lp_p) or lp_p == -np.inf):
+        # current state and proposal both have zero density: the ratio is 0/0, the statement's two clauses do not
+        # single out one answer (moving between zero-density states does not affect invariance) - either is accepted
+        res.count("undefined-ratio(0/0)-skipped")
+        res.outcomes.add("%s:0/0" % hname)
+        return inside
     if np.isnan(lp_p) or lp_p == -np.inf:
         a_ref = 0.0
         if a_impl > 0:
@@ -622,6 +643,10 @@ def cwmh_compare(ad, tgt, x, xi, m_x, T_x, leaves, res, hname, fail, focus):
             prop = cur.copy()
             prop[j] = c[j]
             lps = tgt.logpi(prop)
+            if lp == -np.inf and (np.isnan(lps) or lps == -np.inf):
+                res.count("undefined-ratio(0/0)-skipped")     # see one_transition: either answer is accepted
+                res.outcomes.add("%s:cw:0/0" % hname)
+                return False
             a = 0.0 if (np.isnan(lps) or lps == -np.inf) else float(min(1.0, np.exp(lps - lp)))
             # a decision point only exists when 0<a<1; otherwise the branch is forced
             if a <= 0.0:
